@@ -212,7 +212,9 @@ def dump(
         return_obj["__jsonclass__"].append([str(obj)])
     elif utils.is_enum(obj):
         # Add parameters for enumerations
-        return_obj["__jsonclass__"].append([obj.value])
+        return_obj["__jsonclass__"].append(
+            [dump(obj.value, serialize_method, ignore_attribute, ignore, config)]
+        )
     else:
         # Otherwise, try to figure it out
         # Obviously, we can't assume to know anything about the
